@@ -19,15 +19,16 @@ from vlib.core import PropertyViolation, Recorder, hyp_stateful, violation_recor
 
 PROPERTY = "C17"
 RULE = (
-    "history (<=20 quick / <=50 thorough steps) over one root probe on fa(w as b0, !u as b1): {attach stage "
+    "history (<=20 quick / <=50 thorough steps) over one root probe on fa(w as b0, !u as b1) (optionally with a "
+    "second selector fb(!u)): {attach stage "
     "(accum, getitem, map, filter | count, sum, min, max, last, take_last), activate (with / values() / "
     "global), call <plan>, deactivate (normal / by exception / deactivate()), re-activation attempt, redundant second deactivation, "
-    "background probe on/off}. evaluations = operations applied. Non-trivial = >=1 stage attached "
+    "deactivation from inside a running call, background probe on/off}. evaluations = operations applied. Non-trivial = >=1 stage attached "
     "mid-stream, >=1 reducing stage, and events both inside and outside the active period; distinct by "
     "history hash."
 )
 ASSUMPTIONS = [
-    "deactivating while a strict reducer (min/max/last/sum) has seen no event raises by giving's contract: the model forbids that step (counted)",
+    "deactivating while a strict reducer (min/max/last/sum) has seen no event raises by giving's contract: the deactivation still takes effect; which other reducers published before the error is a don't-care, but no stage may receive anything afterwards",
     "a redundant second deactivation may raise or be ignored; it must not disturb anything (it is in the quantified operation set)",
 ]
 
